@@ -379,7 +379,9 @@ def run_one(cfg, decisions=None, keep_events=False):
         if n_impl > 0:
             scheds = make_schedules(rng, n_impl, slot_stride[:max(1, len(order))] if order else [], cfg.get("tier", "quick"))
             for name, windows in scheds:
-                res = np.empty(len(kernel.result), kernel.dtype)
+                # (the harness owns the result vector of its raw invocations; its size is the
+                # kernel interface's: one or two slots per q point plus four running totals)
+                res = np.empty(base + 4, kernel.dtype)
                 res[:] = np.nan                       # a schedule starting at 0 must reset the buffer
                 pos = 0
                 for (a, b) in windows:
@@ -416,9 +418,12 @@ def run_one(cfg, decisions=None, keep_events=False):
                     break
             # the repo's own driver, unmodified
             if not violations:
-                kernel.result[:] = np.nan
-                kernel._call_kernel(call_details, values, cutoff, is_magnetic, mode)
-                buffers["repo_driver_step100"] = kernel.result[:base + 4].tobytes()
+                # (the driver may keep its vector on the kernel object or hand it back)
+                if getattr(kernel, "result", None) is not None:
+                    kernel.result[:] = np.nan
+                ret = kernel._call_kernel(call_details, values, cutoff, is_magnetic, mode)
+                driver_res = ret if ret is not None else kernel.result
+                buffers["repo_driver_step100"] = np.asarray(driver_res)[:base + 4].tobytes()
                 if n_impl > 100:
                     probe("mesh_over_100_points_real_driver")
                     nontrivial = True
